@@ -181,6 +181,14 @@ def run(ck):
     longs.append(("@db '\r', '\t', 2\n", b"\r\t\x02", None))
     longs.append(('@db "x\ty\x0bz\x0c", 3\r\n@db "\r"\r\n', b"x\ty\x0bz\x0c\x03\r", None))
     longs.append((b"@db 1 ;\r comment with a CR in it\n@db 2\n@db \"\xc3\xa9\r\"\r\n\xff", None, (4, 1)))
+    # ... every one of them (no byte is an end-of-file or a line break but LF): in a string and in the comment after it
+    ctl = [c for c in range(0, 0x80) if c not in (0x0A, 0x22, 0x5C)]
+    longs.append((b"".join(b'@db "a' + bytes([c]) + b'b" ; c' + bytes([c]) + b" d\n" for c in ctl) + b"@db 9\n", b"".join(b"a" + bytes([c]) + b"b" for c in ctl) + b"\x09", None))
+    # the Unicode line and paragraph separators, NEL and the other blanks are characters of the line they stand on
+    seps = "\u2028\u2029\u0085\u00a0\u1680\u2000\u200a\u3000\ufeff\u000b\u000c"
+    longs.append((("@db 1 ; " + seps + " x\n@db \"" + seps + "\" ;" + seps + "\n").encode("utf8") + b"  \xff", None, (3, 3)))
+    longs.append((("; \u2028").encode("utf8") + b"\xff\n@db 1\n", None, (1, 4)))
+    longs.append((("@db 2\n;\u2029\u2028 z").encode("utf8") + b"\xe2\x80", None, (2, 6)))
     n = 24000
     longs.append(("@db " + ", ".join(str(k % 251) for k in range(n)) + "\n", bytes(k % 251 for k in range(n)), None))
     longs.append(("; " + "é" * 70000 + "\n@db 5\n", b"\x05", None))
